@@ -182,6 +182,7 @@ func recoverInterruptedRewrites(path string) error {
 				if err := os.Remove(filepath.Join(path, name)); err != nil && !os.IsNotExist(err) {
 					return errors.Wrap(err, "failed to remove leftover segment file")
 				}
+				crashPoint("recover:leftover-removed")
 			}
 		}
 		for _, file := range files {
